@@ -65,12 +65,18 @@ func names(hs []*hostT) string {
 }
 
 type polCfg struct {
-	kind              int // 0 round-robin, 1 DC-aware, 2 rack-aware
+	kind              int // 0 round-robin, 1 DC-aware, 2 rack-aware, 3 tier = min(data centre number, maxT) (maxT+1 tiers)
+	maxT              int
 	ldc, lrack        int
 	ta, shuffle, nlrf bool
 }
 
-func (c polCfg) ntiers() int { return c.kind + 1 }
+func (c polCfg) ntiers() int {
+	if c.kind == 3 {
+		return c.maxT + 1
+	}
+	return c.kind + 1
+}
 
 // distance class of a host as the documentation of the three policies describes it
 func (c polCfg) tier(h *hostT) int {
@@ -88,6 +94,11 @@ func (c polCfg) tier(h *hostT) int {
 			return 1
 		}
 		return 0
+	case 3:
+		if h.dc < c.maxT {
+			return h.dc
+		}
+		return c.maxT
 	}
 	return 0
 }
@@ -99,13 +110,15 @@ func (c polCfg) coq() string {
 		k = fmt.Sprintf("(PDC %d)", c.ldc)
 	case 2:
 		k = fmt.Sprintf("(PRack %d %d)", c.ldc, c.lrack)
+	case 3:
+		k = fmt.Sprintf("(PByDC %d%%nat)", c.maxT)
 	}
 	return fmt.Sprintf("(mkCfg %s %s %s %s)", k, hlib.Bool(c.ta), hlib.Bool(c.shuffle), hlib.Bool(c.nlrf))
 }
 
 func (c polCfg) String() string {
 	return fmt.Sprintf("kind=%s localDC=%q localRack=%q tokenAware=%v shuffle=%v nonLocalFallback=%v",
-		[]string{"round-robin", "dc-aware", "rack-aware"}[c.kind], dcName(c.ldc), rackName(c.lrack), c.ta, c.shuffle, c.nlrf)
+		[]string{"round-robin", "dc-aware", "rack-aware", fmt.Sprintf("%d-tier-by-dc", c.maxT+1)}[c.kind], dcName(c.ldc), rackName(c.lrack), c.ta, c.shuffle, c.nlrf)
 }
 
 func (c polCfg) build() gocql.HostSelectionPolicy {
@@ -115,8 +128,14 @@ func (c polCfg) build() gocql.HostSelectionPolicy {
 		fb = gocql.RoundRobinHostPolicy()
 	case 1:
 		fb = gocql.DCAwareRoundRobinPolicy(dcName(c.ldc))
-	default:
+	case 2:
 		fb = gocql.RackAwareRoundRobinPolicy(dcName(c.ldc), rackName(c.lrack))
+	default:
+		fb = gocql.VerifC11TieredPolicy(uint(c.maxT), func(h *gocql.HostInfo) uint {
+			var n uint
+			fmt.Sscanf(h.DataCenter(), "dc%d", &n) // "" (unknown data centre) is 0
+			return n
+		})
 	}
 	if !c.ta {
 		return fb
@@ -154,27 +173,31 @@ type iterT struct {
 type pend struct{ kind, finding, detail string }
 
 type scen struct {
-	r       *hlib.Rng
-	cfg     polCfg
-	pool    []*hostT
-	byInfo  map[*gocql.HostInfo]*hostT
-	pol     gocql.HostSelectionPolicy
-	mirror  [][]*hostT // spec side: per tier, hosts added and not removed, in insertion order
-	taHosts []*hostT   // ring membership of the token-aware policy (for avoiding C10's panics)
-	partOK  bool       // a supported partitioner is installed
-	part    string
-	ks      string
-	strat   string
-	rf      map[int]int // NetworkTopologyStrategy: dc -> rf
-	evs     []string
-	open    []*iterT
-	nIter   int
-	pickSeq int
-	lastRR  *iterT
-	viol    []pend
-	maxOff  int
-	stats   map[string]int
-	aborted bool // a policy operation panicked: its mutex may be held, nothing more can be done
+	r         *hlib.Rng
+	cfg       polCfg
+	pool      []*hostT
+	byInfo    map[*gocql.HostInfo]*hostT
+	pol       gocql.HostSelectionPolicy
+	mirror    [][]*hostT // spec side: per tier, hosts added and not removed, in insertion order
+	taHosts   []*hostT   // ring membership of the token-aware policy (for avoiding C10's panics)
+	partOK    bool       // a supported partitioner is installed
+	part      string
+	ks        string
+	strat     string
+	rf        map[int]int // NetworkTopologyStrategy: dc -> rf
+	evs       []string
+	open      []*iterT
+	nIter     int
+	pickSeq   int
+	lastRR    *iterT
+	viol      []pend
+	maxOff    int
+	stats     map[string]int
+	simpleRF  int
+	injected  bool // the replica map was replaced by hand (VerifC11SetReplicas) and not yet recomputed
+	lookupAll bool // emit the C10 cross-check for every Pick (else for a sample)
+	lookupPct int  // the sample: percent of the Picks (0: 25)
+	aborted   bool // a policy operation panicked: its mutex may be held, nothing more can be done
 }
 
 func (s *scen) ev(f string, a ...interface{}) { s.evs = append(s.evs, fmt.Sprintf(f, a...)) }
@@ -212,43 +235,17 @@ func removeFrom(l []*hostT, addr int) []*hostT {
 	return out
 }
 
-// would networkTopology.replicaMap panic on this ring (C10's finding, not ours)?
-func (s *scen) ringPanics(hosts []*hostT) bool {
-	if !s.cfg.ta || !s.partOK || s.strat != "NetworkTopologyStrategy" {
-		return false
-	}
-	dcs := map[int]bool{}
-	skipped := false
-	for _, h := range hosts {
-		dcs[h.dc] = true
-		if len(h.tokens) > 0 && s.rf[h.dc] == 0 {
-			skipped = true
-		}
-	}
-	with := 0
-	for _, rf := range s.rf {
-		if rf > 0 {
-			with++
-		}
-	}
-	return skipped && with == len(dcs)
-}
-
 func (s *scen) op(kind int, h *hostT) {
 	t := s.cfg.tier(h)
 	switch kind {
-	case 0, 1: // AddHost, RemoveHost: also change the token-aware ring
-		var nh []*hostT
-		if kind == 0 {
-			nh = addTo(s.taHosts, h)
-		} else {
-			nh = removeFrom(s.taHosts, h.addr)
+	case 0: // AddHost, RemoveHost also change the token-aware policy's ring (and recompute the replica map)
+		if nh := addTo(s.taHosts, h); len(nh) != len(s.taHosts) {
+			s.taHosts, s.injected = nh, false
 		}
-		if s.ringPanics(nh) {
-			s.stats["op-skipped-c10-panic"]++
-			return
+	case 1:
+		if nh := removeFrom(s.taHosts, h.addr); len(nh) != len(s.taHosts) {
+			s.taHosts, s.injected = nh, false
 		}
-		s.taHosts = nh
 	}
 	s.disturb()
 	defer func() {
@@ -344,13 +341,7 @@ func (s *scen) installRing(part string) {
 		return
 	}
 	ok := strings.HasSuffix(part, "Murmur3Partitioner") || strings.HasSuffix(part, "OrderedPartitioner") || strings.HasSuffix(part, "RandomPartitioner")
-	was := s.partOK
 	s.partOK = s.partOK || ok
-	if s.ringPanics(s.taHosts) {
-		s.partOK = was
-		s.stats["op-skipped-c10-panic"]++
-		return
-	}
 	s.disturb()
 	defer func() {
 		if r := recover(); r != nil {
@@ -360,6 +351,7 @@ func (s *scen) installRing(part string) {
 	}()
 	s.pol.SetPartitioner(part)
 	s.pol.KeyspaceChanged(gocql.KeyspaceUpdateEvent{Keyspace: s.ks})
+	s.injected = false
 }
 
 // Pick.  qk: 0 nil query, 1 query without routing key, 2 query with routing key [key] in keyspace [qks]
@@ -412,6 +404,7 @@ func (s *scen) pick(qk int, key []byte, qks string) *iterT {
 				pr = hlib.Some(s.byInfo[prim].coq())
 			}
 			q = fmt.Sprintf("(QKey %s %s %s)", ht, pr, order)
+			s.lookupEvent(key, qks, q)
 		}
 	}
 	for _, l := range s.mirror {
@@ -438,6 +431,56 @@ func (s *scen) pick(qk int, key []byte, qks string) *iterT {
 	}
 	s.open = append(s.open, it)
 	return it
+}
+
+// the cross-check with C10's model: the replica list and primary owner the real Pick looks up must be what
+// C10.Model computes (newTokenRing, replicaMap, replicasFor, GetHostForToken) from the tokens the HostInfo
+// objects carry, the keyspace's strategy and the hashed routing key.  Integer tokens only (Murmur3, Random).
+func (s *scen) lookupEvent(key []byte, qks, q string) {
+	if s.injected || !(strings.HasSuffix(s.part, "Murmur3Partitioner") || strings.HasSuffix(s.part, "RandomPartitioner")) {
+		return
+	}
+	pct := s.lookupPct
+	if pct == 0 {
+		pct = 25
+	}
+	if !s.lookupAll && !s.r.Chance(pct) {
+		return
+	}
+	tok := gocql.VerifC11Token(s.pol, key)
+	if tok == "" {
+		return
+	}
+	var hs []string
+	for _, h := range s.taHosts {
+		var toks []string
+		for _, t := range h.info.Tokens() {
+			b, ok := new(big.Int).SetString(t, 10)
+			if !ok {
+				return
+			}
+			toks = append(toks, hlib.ZStr(b.String()))
+		}
+		hs = append(hs, fmt.Sprintf("(%d, [%s], (%s, %s, %d))", h.id, strings.Join(toks, ";"),
+			hlib.ZList([]byte(h.info.DataCenter())), hlib.ZList([]byte(h.info.Rack())), h.addr))
+	}
+	strat := "None"
+	if qks == s.ks {
+		switch s.strat {
+		case "SimpleStrategy":
+			strat = fmt.Sprintf("(Some (C10.Model.SSimple %d))", s.simpleRF)
+		case "NetworkTopologyStrategy":
+			var ds []string
+			for d := 0; d <= 16; d++ {
+				if rf, ok := s.rf[d]; ok {
+					ds = append(ds, fmt.Sprintf("(%s, %d)", hlib.ZList([]byte(dcName(d))), rf))
+				}
+			}
+			strat = "(Some (C10.Model.SNts [" + strings.Join(ds, ";") + "]))"
+		}
+	}
+	s.stats["lookups-checked-against-C10-model"]++
+	s.ev("ELookup [%s] %s %s %s", strings.Join(hs, ";"), strat, hlib.ZStr(tok), q)
 }
 
 func (s *scen) bound() int { return 2*len(s.pool) + 8 }
@@ -796,11 +839,15 @@ func newScen(r *hlib.Rng, cfg polCfg, sh shape, stats map[string]int) *scen {
 		opts := map[string]interface{}{}
 		switch sh.strat {
 		case "SimpleStrategy":
-			opts["replication_factor"] = 1 + r.Intn(sh.rfMax)
+			s.simpleRF = 1 + r.Intn(sh.rfMax)
+			opts["replication_factor"] = s.simpleRF
 		case "NetworkTopologyStrategy":
-			for d := 0; d <= sh.nDC; d++ {
+			for d := 0; d <= sh.nDC+1; d++ { // nDC+1: a data centre no host is in
+				if d == sh.nDC+1 && r.Bool() {
+					continue
+				}
 				rf := 1 + r.Intn(sh.rfMax)
-				if r.Chance(12) {
+				if r.Chance(15) {
 					rf = 0
 				}
 				s.rf[d] = rf
@@ -911,6 +958,7 @@ func (s *scen) run(sh shape) {
 				}
 			}
 			if gocql.VerifC11SetReplicas(s.pol, s.ks, hs) {
+				s.injected = true
 				s.disturb()
 				s.stats["replica-lists-injected"]++
 				for k := 1 + r.Intn(3); k > 0; k-- {
@@ -939,6 +987,9 @@ func randCfg(r *hlib.Rng, nDC, nRack int, search bool) polCfg {
 	if search && r.Chance(50) {
 		c.kind = 2
 	}
+	if r.Chance(15) {
+		c.kind, c.maxT = 3, r.Intn(6)
+	}
 	c.ldc = 1 + r.Intn(nDC)
 	if r.Chance(5) {
 		c.ldc = nDC + 1 // a local data centre no host is in
@@ -954,6 +1005,9 @@ func randCfg(r *hlib.Rng, nDC, nRack int, search bool) polCfg {
 
 func randShape(r *hlib.Rng, search bool) shape {
 	sh := shape{nHosts: 1 + r.Intn(12), nDC: 1 + r.Intn(3), nRack: 1 + r.Intn(3), vnodes: 1, upPct: 80, rfMax: 3, steps: 6 + r.Intn(10)}
+	if r.Chance(20) {
+		sh.nDC = 1 + r.Intn(6) // many data centres (tier-generic policies)
+	}
 	if search {
 		sh.nHosts = 2 + r.Intn(15)
 		sh.steps = 12 + r.Intn(20)
@@ -1203,9 +1257,13 @@ func main() {
 		}
 		cfg := randCfg(r, sh.nDC, sh.nRack, o.Search)
 		s := newScen(r, cfg, sh, stats)
+		if o.Tier == "thorough" {
+			s.lookupPct = 8 // each cross-check costs ~35 ms of vm_compute
+		}
 		s.run(sh)
 		emit(o, kind, s)
 	}
+	e2e(o, stats)
 	unexplained := 0
 	for _, v := range o.Violations {
 		if v.Finding == "" {
@@ -1218,5 +1276,5 @@ func main() {
 	for k, v := range stats {
 		o.Extra[k] = v
 	}
-	o.Finish("From GocqlV Require Import Lib.Base C11.Model C11.Corr.", "C11.Corr.case", "C11.Corr.run")
+	o.Finish("From GocqlV Require C10.Model.\nFrom GocqlV Require Import Lib.Base C11.Model C11.Corr.", "C11.Corr.case", "C11.Corr.run")
 }
